@@ -53,5 +53,7 @@ INVARIANTS
   J_InstFresh
   J_CrashKept
   J_DepsConsistent
+  J_PruneKeepsRestore
+  J_PruneIdempotent
 PROPERTIES
   StepProps
